@@ -7,6 +7,7 @@ import (
 	"fmt"
 	"math/big"
 	"math/rand"
+	"os"
 	"sync"
 	"sync/atomic"
 	"time"
@@ -23,7 +24,11 @@ import (
 type NoLog struct{}
 
 func (NoLog) Debug(string) {}
-func (NoLog) Info(string)  {}
+func (NoLog) Info(s string) {
+	if os.Getenv("VERIF_NODELOG") != "" {
+		fmt.Fprintln(os.Stderr, "NODELOG", s)
+	}
+}
 func (NoLog) Warn(string)  {}
 func (NoLog) Error(string) {}
 func (NoLog) Fatal(string) {}
@@ -189,7 +194,7 @@ type slowVerifier struct {
 
 func (s *slowVerifier) Verify(message, signature []byte, hash [32]byte, address string) error {
 	k := s.n.Add(1)
-	d := time.Duration((k*2654435761)%uint64(s.max+1))
+	d := time.Duration((k * 2654435761) % uint64(s.max+1))
 	if d > 0 {
 		time.Sleep(d)
 	}
